@@ -35,6 +35,7 @@ def gen_cases(tier, seed):
             yield ('P', i, lo, min(n, lo + 3), tier)
     yield ('M', 'real')
     yield ('M', 'log')
+    yield ('X',)
 
 
 def describe(case):
@@ -59,7 +60,9 @@ def run_case(case):
     warnings.simplefilter('ignore')
     ptinv.install()
     r = Res()
-    if case[0] == 'M':
+    if case[0] == 'X':
+        part_unit_sum(r, case)
+    elif case[0] == 'M':
         part_multi(case[1], r)
     elif case[0] == 'P':
         cat = P.catalogue(2, 2, 18)
@@ -72,6 +75,46 @@ def run_case(case):
         _, pa, pb, da, db, va, vb = case
         judge(pa, pb, da, db, list(va), list(vb), r)
     return r
+
+
+def part_unit_sum(r, case):
+    """Size-1 dimensions written in different ways - unitAxis, a physical axis of size 1, a sum axis around a unit
+    (SumAxis(0, PhysicalAxis(1), 0), normalised by the constructor) - compared with each other and with dense tensors,
+    as receiver and as argument."""
+    import torch
+    from fggs.indices import PatternedTensor, PhysicalAxis, SumAxis, unitAxis
+    def variants(vals, default):
+        n = len(vals)
+        out = []
+        k = PhysicalAxis(n)
+        out.append(('dense', PatternedTensor(torch.tensor([vals], dtype=torch.float64), default=default)))
+        out.append(('unit', PatternedTensor(torch.tensor(vals, dtype=torch.float64), (k,), (unitAxis, k), default)))
+        k1, k2 = PhysicalAxis(1), PhysicalAxis(n)
+        out.append(('sum-of-size-1', PatternedTensor(torch.tensor([vals], dtype=torch.float64), (k1, k2), (SumAxis(0, k1, 0), k2), default)))
+        k1, k2 = PhysicalAxis(1), PhysicalAxis(n)
+        out.append(('physical-size-1', PatternedTensor(torch.tensor([vals], dtype=torch.float64), (k1, k2), (k1, k2), default)))
+        k3 = PhysicalAxis(n)
+        out.append(('sum-unit', PatternedTensor(torch.tensor(vals, dtype=torch.float64), (k3,), (SumAxis(0, unitAxis, 0), k3), default)))
+        return out
+    for va, vb in (([1., 2.], [1., 2.]), ([1., 2.], [1., 2.5]), ([0., 0.], [0., 0.]), ([3.], [3.]), ([3.], [4.])):
+        for da, db in ((0., 0.), (-1., 0.), (0., -1.), (-1., -1.)):
+            for (na, a), (nb, b) in itertools.product(variants(va, da), variants(vb, db)):
+                key = ('X', tuple(va), tuple(vb), da, db, na, nb)
+                try:
+                    with warnings.catch_warnings(record=True) as wl:
+                        warnings.simplefilter('always')
+                        A, B = a.to_dense(), b.to_dense()
+                        ge, gc = a.equal(b), a.allclose(b, 1e-5, 1e-8)
+                    we, wc = bool(torch.equal(A, B)), bool(torch.allclose(A, B, rtol=1e-5, atol=1e-8))
+                    if any('type mismatch' in str(x.message) for x in wl):
+                        r.excl['unit-sum pair is ill-typed (unify warning)'] += 1
+                        continue
+                    if bool(ge) != we or bool(gc) != wc:
+                        r.bad('equal-wrong' if bool(ge) != we else 'allclose-wrong', 'indices.PatternedTensor.equal', 'unit-sum', '%s %r default %r  vs  %s %r default %r: equal=%r allclose=%r, torch %r %r' % (na, va, da, nb, vb, db, ge, gc, we, wc), case, key)
+                    else:
+                        r.ok(key, outcome=('unit-sum', we), nontrivial=True)
+                except Exception as e:
+                    r.exc(e, 'unit-sum', case, key)
 
 
 def numel(p):
